@@ -119,6 +119,30 @@ class C09Scenario(ChangeScenario):
                 elif inst['cancel'] != due and not acts:
                     out.append(self.viol(env, 'cancelled-late', f"daemon {key[2]} got the stop flag at {inst['flag']}; cancelled at {inst['cancel']}, due at {due}",
                                          clause='stages'))
+        # the operator's exit is bounded: stopping the daemons takes no longer than their backoffs + timeouts (a daemon that
+        # swallows cancellations and has NO timeout can hold it forever: that is C20's recorded finding, not judged here)
+        if exact:
+            exits = {p['op']: t for t, k, p in env.obs if k == 'pipeline-exit'}
+            for t, k, p in env.obs:
+                if k != 'stop':
+                    continue
+                op = p['op']
+                mine = [(key, inst) for key, inst, t_end in ended if key[0] == op and inst['enter'] <= t and t_end > t] + \
+                       [(key, inst) for key, inst in live.items() if key[0] == op and inst['enter'] <= t]
+                budget, unbounded = 2.0, False
+                for key, inst in mine:
+                    h = spawned[key[2]]
+                    if h['on'] != 'daemon':
+                        continue
+                    if h.get('reaction') == 'ignore' and h.get('cancellation_timeout') is None:
+                        unbounded = True
+                    budget += (h.get('cancellation_backoff') or 0.0) + (h.get('cancellation_timeout') or 0.0) + (h.get('exit_delay') or 0.0)
+                if unbounded or t + budget >= self.horizon - 1 or env.owes():
+                    continue
+                if exits.get(op) is None or exits[op] > t + budget:
+                    out.append(self.viol(env, 'exit-stalled', f"operator {op} was stopped at t={t}; with {len(mine)} spawned handler(s) alive its exit is due within "
+                                                              f"{budget}s; it {'never exited' if exits.get(op) is None else 'exited at ' + str(exits[op])}",
+                                         clause='never-stalls', what='exit'))
         # asked to stop when the object disappears (also when nothing held it: no finalizer / forced removal)
         if exact and not env.owes():
             gone: dict[str, float] = {}
